@@ -197,7 +197,18 @@ theorem body_inv (c : Cfg) (s s' : State) (i : Nat) (hi : Inv c s) (h : body c s
         · exact hi.wake_gt p (hsl p hp)
         · simp at hp; subst hp; simp only; omega
 
+theorem leave_eq (s s' : State) (i : Nat) (h : leave s i = .ok s') :
+    s' = { s with inBody := s.inBody.filter fun j => j != i } := by
+  simp only [leave] at h
+  split at h
+  · simp at h; exact h.symm
+  · simp at h
+
 theorem step_inv (c : Cfg) (s s' : State) (op : Op) (hi : Inv c s) (h : step c s op = .ok s') : Inv c s' := by
+  have leave_case : ∀ i, leave s i = .ok s' → Inv c s' := by
+    intro i h
+    rw [leave_eq s s' i h]
+    exact ⟨hi.split, hi.le_now, hi.sorted, hi.boundOC, hi.boundCO, hi.asleep, hi.wake_gt⟩
   cases op with
   | tick dt =>
     simp [step] at h; subst h
@@ -209,10 +220,24 @@ theorem step_inv (c : Cfg) (s s' : State) (op : Op) (hi : Inv c s) (h : step c s
   | attempt i =>
     simp only [step] at h
     split at h
+    · simp at h
     · split at h
-      · simp at h
+      · split at h
+        · simp at h
+        · exact body_inv c s s' i hi h
       · exact body_inv c s s' i hi h
-    · exact body_inv c s s' i hi h
+  | exit i => exact leave_case i h
+  | fail i => exact leave_case i h
+  | cancel i =>
+    simp only [step] at h
+    split at h
+    · exact leave_case i h
+    · split at h
+      · simp at h; subst h
+        have hsl : ∀ p ∈ removeSleeper i s.sleepers, p ∈ s.sleepers := fun p hp => (List.mem_filter.mp hp).1
+        exact ⟨hi.split, hi.le_now, hi.sorted, hi.boundOC, hi.boundCO,
+          fun p hp => hi.asleep p (hsl p hp), fun p hp => hi.wake_gt p (hsl p hp)⟩
+      · simp at h
 
 theorem run_inv (c : Cfg) : ∀ (ops : List Op) (s s' : State), Inv c s → run c s ops = .ok s' → Inv c s' := by
   intro ops
